@@ -81,6 +81,7 @@ def regen():
         problems = ["ax2coq: crashed: " + out[-500:]]
     if os.path.exists(os.path.join(tmp, "Frame.v")):
         gen_quiet(tmp)
+        gen_unimpl(tmp)
     os.makedirs(GEN, exist_ok=True)
     changed = []
     for f in sorted(os.listdir(tmp)):
@@ -109,7 +110,7 @@ def gen_quiet(d):
     from the generated text; whether they hold is decided by Coq."""
     bodies = {}
     for f in sorted(os.listdir(d)):
-        if not f.endswith(".v") or f in ("Frame.v",) or f[:-2] in [x[0] for x in DERIVED]:
+        if not f.endswith(".v") or f in ("Frame.v", "Unimpl.v") or f[:-2] in [x[0] for x in DERIVED]:
             continue
         txt = open(os.path.join(d, f)).read()
         for m in re.finditer(r"^(?:Definition|Fixpoint) (\w+)(.*?)(?=^(?:Definition|Fixpoint) |\Z)", txt, re.S | re.M):
@@ -139,6 +140,48 @@ def gen_quiet(d):
         open(os.path.join(d, modname + ".v"), "w").write("\n".join(out) + "\n")
         res[modname] = (names, sorted(loud))
     return res
+
+
+def gen_unimpl(d):
+    """gen/Unimpl.v: for every generated instruction function whose body is the unimplemented stub
+    (opcode_unimplemented!), a lemma that the dispatcher returns the error value Err EUnimpl on that
+    (mnemonic, code) pair with the state unchanged - in every build configuration - plus the list of
+    those pairs and the theorem over the list.  Which forms are stubs is read from the generated text;
+    that the dispatcher reports an error for them is decided by Coq (C19 pins the count)."""
+    forms = []          # (module, mnemonic_fn, M_x, instr_fn, C_x)
+    for f in sorted(os.listdir(d)):
+        if not (f.startswith("I_") and f.endswith(".v")):
+            continue
+        txt = open(os.path.join(d, f)).read()
+        stubs = dict((m.group(1), m.group(2)) for m in re.finditer(
+            r"^Definition (instr_\w+) \(c : cfg\) \(v_i : instr\) : MM unit :=\n"
+            r"  \(_ <- lift \(\(debug_assert_that c \(code_eqb \(i_code v_i\) (C_\w+)\)\)\) ;;\n"
+            r"  \(fail EUnimpl\)\)\.$", txt, re.M))
+        for mm in re.finditer(r"^Definition (mnemonic_\w+) \(c : cfg\) \(v_i : instr\) : MM unit :=\n"
+                              r"  \(_ <- lift \(\(debug_assert_that c \(mnemonic_eqb \(i_mnemonic v_i\) (M_\w+)\)\)\) ;;\n"
+                              r"(.*?)^  end\)\)\.$", txt, re.S | re.M):
+            for arm in re.finditer(r"^  \| (C_\w+) => \(\((instr_\w+) c v_i\)\)$", mm.group(3), re.M):
+                if stubs.get(arm.group(2)) == arm.group(1):
+                    forms.append((f[:-2], mm.group(1), mm.group(2), arm.group(2), arm.group(1)))
+    mods = sorted(set(x[0] for x in forms))
+    out = ["(* GENERATED by lib/axv.py (gen_unimpl) from the text of gen/I_*.v -- do not edit; regenerated on every check run *)",
+           "From Coq Require Import ZArith Bool List.",
+           "From AxV Require Import Bits Outcome Codes Iced State Rt Mem Trace.",
+           "From AxG Require Import Flags Regs Operand Helpers Dispatch %s." % " ".join(mods),
+           "Import ListNotations.", ""]
+    for mod, mfn, mn, ifn, cd in forms:
+        out.append("Lemma unimpl_%s c i s : i_mnemonic i = %s -> i_code i = %s -> switch_instruction_mnemonic c i s = (Err EUnimpl, s).\n"
+                   "Proof. intros Hm Hc. unfold switch_instruction_mnemonic. rewrite Hm. unfold %s. rewrite Hm, Hc. unfold %s. rewrite Hc. "
+                   "destruct c as [[|] ov]; reflexivity. Qed.\n" % (ifn, mn, cd, mfn, ifn))
+    out.append("Definition unimpl_forms : list (mnemonic * code) :=\n  [%s]." % ";\n   ".join("(%s, %s)" % (x[2], x[4]) for x in forms))
+    out.append("")
+    out.append("Theorem unimpl_forms_error c i s :\n  In (i_mnemonic i, i_code i) unimpl_forms -> switch_instruction_mnemonic c i s = (Err EUnimpl, s).")
+    out.append("Proof.\n  intros H. unfold unimpl_forms in H.")
+    for mod, mfn, mn, ifn, cd in forms:
+        out.append("  destruct H as [H|H]; [injection H as Hm Hc; apply unimpl_%s; symmetry; assumption|]." % ifn)
+    out.append("  destruct H.\nQed.")
+    open(os.path.join(d, "Unimpl.v"), "w").write("\n".join(out) + "\n")
+    return forms
 
 
 def gen_pinned_diff():
@@ -173,7 +216,7 @@ def write_coqproject():
     lines += order
     if os.path.exists(os.path.join(GEN, "Frame.v")):
         lines.append("gen/Frame.v")
-    for extra in ("Quiet", "Readonly"):
+    for extra in ("Quiet", "Readonly", "Unimpl"):
         if os.path.exists(os.path.join(GEN, extra + ".v")):
             lines.append("gen/%s.v" % extra)
     txt = "\n".join(lines) + "\n"
